@@ -273,6 +273,32 @@ func (s *SPS) ChromaArrayType() byte {
 	return 0
 }
 
+// picSizeInMapUnits returns PicSizeInMapUnits = PicWidthInMbs * PicHeightInMapUnits (Section 7.4.2.1.1).
+// The SPS only keeps the cropped Width and Height in pixels, so the cropping done in ParseSPSNALUnit is reverted.
+func (s *SPS) picSizeInMapUnits() uint {
+	var frameMbsOnly uint = 0
+	if s.FrameMbsOnlyFlag {
+		frameMbsOnly = 1
+	}
+	width, height := s.Width, s.Height
+	if s.FrameCroppingFlag {
+		var cropUnitX, cropUnitY uint
+		switch s.ChromaFormatIDC {
+		case 1:
+			cropUnitX, cropUnitY = 2, 2*(2-frameMbsOnly)
+		case 2:
+			cropUnitX, cropUnitY = 2, 1*(2-frameMbsOnly)
+		default:
+			cropUnitX, cropUnitY = 1, 2-frameMbsOnly
+		}
+		width += (s.FrameCropLeftOffset + s.FrameCropRightOffset) * cropUnitX
+		height += (s.FrameCropTopOffset + s.FrameCropBottomOffset) * cropUnitY
+	}
+	picWidthInMbs := width / 16
+	picHeightInMapUnits := height / (16 * (2 - frameMbsOnly)) // Height is doubled for interlaced
+	return picWidthInMbs * picHeightInMapUnits
+}
+
 // parseVUI - parse VUI (Visual Usability Information)
 // if parseVUIBeyondAspectRatio is false, stop after AspectRatio has been parsed
 func parseVUI(reader *bits.EBSPReader, parseVUIBeyondAspectRatio bool) *VUIParameters {
